@@ -17,15 +17,15 @@ MANIFEST = {
             "snapshot gives back the staged map at snapshot time; Commit writes exactly that map; RevertDiff of the returned diff "
             "restores the previous database as a list (byte for byte); IterateRange/Iterate/IterateKey return exactly the keys in "
             "the bounds, in order, truncated; p is a prefix of k iff p <= k < upperBound(p). Tie: random op sequences (3-symbol "
-            "alphabet 00/61/ff, key lengths 0-3, up to 3 views, snapshots) and random scans run on the real code over in-memory "
+            "alphabet 00/61/ff, key lengths 0-3, up to 7 views forming a tree of depth 2-3 with siblings off derived views, snapshots) and random scans run on the real code over in-memory "
             "pebble; each observation is compared in Coq with the model and with the specification; DB dumped after Commit and "
             "after RevertDiff (through the diff codec).",
     "note": "Four genuine defects found by the faithful model were repaired in /repo (limit before staged deletes; Iterate "
             "through a prefix view; RestoreSnapshot with older views; reverse IterateRange) and the repaired code is what is "
             "modelled; their replays are in corpus/C12. Trusted: pebble iterators obey sorted-map semantics (sampled by the scan "
             "cases), Go map iteration order is irrelevant (proved: results are sorted / order-insensitive), byte slices are not "
-            "mutated by callers is now PROBED (the harness overwrites every buffer passed in or received; two aliasing defects fixed). batchdb modelled (reads = database, written batch = overlay specification). db-level limit 0 returns one element (iterator.go counts after "
-            "appending): stated in the theorem, unspecified by the property.",
+            "mutated by callers is now PROBED (the harness overwrites every buffer passed in or received; two aliasing defects fixed). batchdb modelled (reads = database, written batch = overlay specification). both layers read limits identically for every value (0 = none, negative = no limit) after fix c96d3f9 "
+            "(C12_layers_agree_on_limits).",
 }
 IMPORTS = "From LE Require Import Base.Lex Store.SMap Store.PebbleIter Store.DiffDB Store.DiffDBSpec Store.BatchDB Corr.C12."
 
@@ -257,7 +257,7 @@ def run(ck):
     for r in [x for x in recs if x["k"] == "ops"][:2] + [x for x in recs if x["k"] == "scan"][:2]:
         ck.sample(strip_obs(r))
     ck.cov["rule"] = ("ops: random sequences of get/has/set/del/range/iterate/snapshot/restore/delete-snapshot/with-prefix over up to "
-                      "3 views on keys over the alphabet {00,61,ff} of length 0-3 (limits -2..5, both directions), then Commit, "
+                      "7 views (a tree: siblings off derived views) on keys over the alphabet {00,61,ff} of length 0-3 (limits -2..5, both directions), then Commit, "
                       "write, RevertDiff through the codec, write; non-trivial = a non-empty range/iterate read after a staged "
                       "write, or a successful restore; distinct by the whole input. scans: random IterateRange/Iterate/IterateKey "
                       "on DB or Reader; non-trivial = non-empty result; distinct by input. corpus/C12 replays run first.")
